@@ -244,6 +244,91 @@ def gen_messages(ctx):
     return probes, lists
 
 
+# ---- messages in WIRE form (JSON texts as a peer would send them): every optional member, every JSON kind
+JSON_KINDS = {
+    "object": '{"k":{"n":[1,{"z":null}]},"a":"<&>"}', "empty-object": "{}", "array": '[1,"two",[3],{"f":4}]', "empty-array": "[]",
+    "string": '"s \\u00e9 \\" <tag>"', "empty-string": '""', "int": "42", "negative": "-7", "float": "1.5", "exp": "1e3", "big": "12345678901234567890",
+    "true": "true", "false": "false", "null": "null",
+}
+WIRE_IDS = {"int": "7", "zero": "0", "negative-int": "-3", "2^53": str(2 ** 53), "string": '"id-1"', "empty-string": '""', "unicode-string": '"\\u00e9x"'}
+WIRE_MEMBERS = {
+    "request": "jsonrpc, id (int|string), method, params (absent | each JSON kind)",
+    "notification": "jsonrpc, method, params (absent | each JSON kind), id absent | null",
+    "result-response": "jsonrpc, id (int|string), result (each JSON kind)",
+    "error-response": "jsonrpc, id (int|string), error{code (absent|int64 values), message (absent|strings), data (absent | each JSON kind)}, "
+                      "optionally together with result; error:null with result",
+    "noise": "unknown extra members at top level and inside error, member order shuffled, insignificant white space",
+    "rejected (must fail to decode)": "wrong/missing jsonrpc version, response without id / with id:null, id of JSON kind bool|object|array, "
+                                      "fractional code, truncated text, not an object",
+    "excluded": "integer ids beyond 2^53 and fractional ids (float64 coercion: known finding domain), duplicate members, invalid UTF-8",
+}
+
+
+def wire_text(members, rng=None, noise=False):
+    """members: list of (name, json text) -> a JSON object text; with noise: shuffled, extra members, white space"""
+    ms = list(members)
+    if noise and rng is not None:
+        if rng.below(2):
+            ms.append(("x-extra", rng.choice(list(JSON_KINDS.values()))))
+        for i in range(len(ms) - 1, 0, -1):
+            j = rng.below(i + 1)
+            ms[i], ms[j] = ms[j], ms[i]
+        sp = lambda: rng.choice(["", " ", "\n", "\t ", "  "])
+        return "{" + ",".join(sp() + json.dumps(k) + sp() + ":" + sp() + v + sp() for k, v in ms) + "}"
+    return "{" + ",".join(json.dumps(k) + ":" + v for k, v in ms) + "}"
+
+
+def gen_wire(ctx):
+    """-> (deterministic lists, seeded lists) of wire-form texts ('!' prefix = must be rejected by DecodeMessage)"""
+    rng = ctx.rng
+    V = ("jsonrpc", '"2.0"')
+    det = []
+    for kn, kv in JSON_KINDS.items():
+        det.append([wire_text([V, ("id", "1"), ("method", '"m/%s"' % kn), ("params", kv)])])
+        det.append([wire_text([V, ("method", '"n/%s"' % kn), ("params", kv)])])
+        det.append([wire_text([V, ("id", '"r"'), ("result", kv)])])
+        det.append([wire_text([V, ("id", "2"), ("error", '{"code":-32000,"message":"with data","data":%s}' % kv)])])
+        det.append([wire_text([V, ("id", "3"), ("result", kv), ("error", '{"code":1,"message":"both","data":%s,"more":true}' % kv)])])
+    for idn, idv in WIRE_IDS.items():
+        det.append([wire_text([V, ("id", idv), ("method", '"m"')]), wire_text([V, ("id", idv), ("result", "null")]),
+                    wire_text([V, ("id", idv), ("error", '{"code":-32601,"message":"JSON RPC method not found"}')])])
+    det.append([wire_text([V, ("id", "null"), ("method", '"notif-with-null-id"')]), wire_text([V, ("method", '"n"')]),
+                wire_text([V, ("id", "5"), ("error", '{"message":"no code"}')]), wire_text([V, ("id", "5"), ("error", '{"code":9}')]),
+                wire_text([V, ("id", "5"), ("error", "{}")]), wire_text([V, ("id", "5"), ("error", "null"), ("result", "1")]),
+                wire_text([V, ("id", "6"), ("error", '{"code":%d,"message":"","data":[]}' % (2 ** 63 - 1))]),
+                wire_text([V, ("id", "6"), ("error", '{"code":%d,"message":"min"}' % (-2 ** 63))]), wire_text([V, ("id", "8")])])
+    for bad in ['{"jsonrpc":"1.0","id":1,"method":"m"}', '{"id":1,"method":"m"}', '{"jsonrpc":"2.0","error":{"code":1,"message":"x"}}',
+                '{"jsonrpc":"2.0","id":null,"result":1}', '{"jsonrpc":"2.0","id":true,"method":"m"}', '{"jsonrpc":"2.0","id":{},"method":"m"}',
+                '{"jsonrpc":"2.0","id":[1],"result":1}', '{"jsonrpc":"2.0","id":1,"error":{"code":1.5,"message":"x"}}', '{"jsonrpc":"2.0","id":1,"method":"m"',
+                '[]', '"x"', '{"jsonrpc":"2.0"}']:
+        det.append(["!" + bad, wire_text([V, ("id", "1"), ("method", '"after-a-rejected-one"')])])
+    kinds = list(JSON_KINDS.values())
+    ids = list(WIRE_IDS.values())
+
+    def one():
+        k = rng.below(10)
+        i = rng.choice(ids) if rng.below(4) else str(rng.below(2 * SAFE + 1) - SAFE)
+        if k < 2:
+            ms = [V, ("id", i), ("method", json.dumps(rng.choice(METHODS).strip() or "m"))] + ([("params", rng.choice(kinds))] if rng.below(3) else [])
+        elif k < 4:
+            ms = [V, ("method", json.dumps(rng.choice(METHODS).strip() or "n"))] + ([("params", rng.choice(kinds))] if rng.below(3) else []) + ([("id", "null")] if rng.below(4) == 0 else [])
+        elif k < 6:
+            ms = [V, ("id", i), ("result", rng.choice(kinds))]
+        else:
+            e = []
+            if rng.below(5):
+                e.append(("code", str(rng.choice([-32700, -32603, -32000, 0, 1, 2 ** 40, -2 ** 62]))))
+            if rng.below(5):
+                e.append(("message", json.dumps(rng.choice(["request failed", "", "é", "a\nb", "<x>"]))))
+            if rng.below(3):
+                e.append(("data", rng.choice(kinds)))
+            ms = [V, ("id", i), ("error", wire_text(e, rng, noise=rng.below(2) == 0))] + ([("result", rng.choice(kinds))] if rng.below(4) == 0 else [])
+        return wire_text(ms, rng, noise=rng.below(3) > 0)
+
+    seeded = [[one() for _ in range(1 + rng.below(4))] for _ in range(ctx.n(1500, 40000))]
+    return det, seeded
+
+
 def proj_model_tok(tok, decode):
     """model token -> what the implementation must show for it"""
     body, total = tok.rsplit("@", 1)
@@ -337,7 +422,9 @@ def run(ctx):
 
     # ------------------------------------------------------------------ W: writer + codec round trip
     probes, lists = gen_messages(ctx)
-    wcases = ["W " + " ".join(m) for m in probes + lists]
+    wdet, wseeded = gen_wire(ctx)
+    wire = wdet + wseeded
+    wcases = ["W " + " ".join(m) for m in probes + lists] + ["J " + " ".join(("!" if t.startswith("!") else "") + hx(t.lstrip("!").encode()) for t in ts) for ts in wire]
     rc4, out4 = ctx.run([impl], input="\n".join(wcases) + "\n")
     ctx.log("writer/codec round trips done (%d lists)" % len(wcases))
     wl = out4.splitlines()
@@ -355,6 +442,17 @@ def run(ctx):
         return
     ctx.diff_lines("write_stream~HeaderFramer.Writer", wcases, "\n".join(wimpl), out5)
     kinds = {}
+    nbuilt = len(probes) + len(lists)
+    for ts, l in zip(wire, wl[nbuilt:]):
+        f = l.split("\t")
+        for t in ts:
+            k = "wire:rejected" if t.startswith("!") else ("wire:error-data" if '"data"' in t else "wire:error" if '"error"' in t and '"error":null' not in t.replace(" ", "")
+                 else "wire:result" if '"result"' in t else "wire:request" if '"id"' in t and '"id":null' not in t.replace(" ", "") else "wire:notification")
+            kinds[k] = kinds.get(k, 0) + 1
+        verdict = f[2] if len(f) > 2 else "no-verdict"
+        if verdict != "ok":
+            ctx.fail("wire:" + vsha(" ".join(ts).encode()), "decode -> write -> read of wire-form messages %s: %s" % (" ".join(ts)[:300], verdict[:600]),
+                     {"wire_messages": ts, "impl": l[:3000]})
     for i, (specs, l) in enumerate(zip(probes + lists, wl)):
         f = l.split("\t")
         for m in specs:
@@ -375,8 +473,13 @@ def run(ctx):
                    "Ogham / CJK-space neighbourhoods as white space) + %d exhaustive token sequences (length<=%d over %d tokens) + %d seeded "
                    "well-formed sequences and mutations; non-trivial = distinct stream of >=16 bytes. writer/codec: %d deterministic id probes "
                    "+ %d seeded lists of 0-4 messages (valid messages only: non-empty valid-UTF-8 method, valid JSON params/result, "
-                   "response ids valid; seeded integer ids within +-2^53; wireError.Data not constructible through the exported API)"
-                   % (ndet, nsoup, ctx.n(3, 4), len(TOKENS) if not ctx.quick else 18, len(cases) - ndet - nsoup, len(probes), len(lists)),
+                   "response ids valid; seeded integer ids within +-2^53; wireError.Data not constructible through the exported API) "
+                   "+ %d deterministic and %d seeded lists of WIRE-FORM messages (JSON texts decoded by DecodeMessage, written, read back; "
+                   "checked: read-back message == first decode field by field, re-encoding == known members of the text; see codec_member_coverage)"
+                   % (ndet, nsoup, ctx.n(3, 4), len(TOKENS) if not ctx.quick else 18, len(cases) - ndet - nsoup, len(probes), len(lists), len(wdet), len(wseeded)),
+              codec_member_coverage={"constructor-built (W)": "call: id (string|int64), method, params (absent|JSON kinds); notification: method, params; "
+                                     "response: id, result (absent|JSON kinds), error (nil | NewError code/message | plain error | wrapped wire error) - "
+                                     "never error.data (not constructible)", "wire-form (J)": WIRE_MEMBERS, "json_kinds": sorted(JSON_KINDS)},
               stream_shape_histogram=dict(sorted(shapes.items(), key=lambda kv: -kv[1])),
               read_result_histogram=results, message_kind_histogram=kinds, distinct_payloads_decoded=len(pls))
     ctx.assume("transport delivers bytes then EOF: other read errors and context cancellation are not modelled",
